@@ -88,6 +88,36 @@ theorem find_outlink_provenance (next : Bool) (Fs : List Facts) :
       exact ⟨F, hF, he, h1, h2, h4, h5.1, sc, hvd, hs⟩
     · cases hv
 
+/-- **… and it is the best one**: no anchor that became a candidate with at least 50 points and whose
+URL is not banned scored higher than the anchor the finder returns. -/
+theorem find_outlink_is_best (next : Bool) (Fs : List Facts) (F : Facts) (sc : Int) (hF : F ∈ Fs)
+    (hv : verdict next F = .cand sc) (hs : sc ≥ 50)
+    (hnb : ∀ G ∈ Fs, verdict next G = .banned → G.href ≠ F.href) :
+    ∃ G ∈ Fs, G.href = findOutlink next Fs ∧ ∃ sg, verdict next G = .cand sg ∧ sc ≤ sg := by
+  unfold findOutlink
+  simp only []
+  have hm : (⟨F.href, sc⟩ : Pg.Cand) ∈ Fs.filterMap fun F => match verdict next F with | .cand sc => some (⟨F.href, sc⟩ : Pg.Cand) | _ => none := by
+    simp only [List.mem_filterMap]
+    exact ⟨F, hF, by rw [hv]⟩
+  have hb : (⟨F.href, sc⟩ : Pg.Cand).href ∉ Fs.filterMap fun F => match verdict next F with | .banned => some F.href | _ => none := by
+    intro hmem
+    simp only [List.mem_filterMap] at hmem
+    obtain ⟨G, hG, hg⟩ := hmem
+    split at hg
+    · rename_i hgb
+      simp only [Option.some.injEq] at hg
+      exact hnb G hG hgb hg
+    · cases hg
+  obtain ⟨c, hc, he, hle⟩ := Pg.prevnext_max _ _ ⟨F.href, sc⟩ hm hb hs
+  simp only [List.mem_filterMap] at hc
+  obtain ⟨G, hG, hgv⟩ := hc
+  split at hgv
+  · rename_i sg hgc
+    simp only [Option.some.injEq] at hgv
+    subst hgv
+    exact ⟨G, hG, he, sg, hgc, hle⟩
+  · cases hgv
+
 /-! ### page-number links (`getPageInfoAndText`) -/
 
 /-- `getPageInfoAndText` and the walk over the neighbouring leaves as they stand -/
